@@ -43,7 +43,9 @@ fn drive(spec: &ExchangeSpec, s: &mut Sched, follow: Option<RedirectAuthHeaders>
     let states = obs.path.len();
     let interesting = obs.path.contains(&"Await100") || obs.path.contains(&"Redirect");
     if states >= 4 && interesting {
-        st.nontrivial(st.case_digest);
+        if st.nontrivial(st.case_digest) && st.wants_sample() && stream.len() < 400 {
+            st.sample(json!({"exchange": spec_json(spec), "state_path": obs.path, "follow": follow.map(|p| format!("{:?}", p))}));
+        }
     }
     if obs.path.contains(&"Await100") {
         st.class("via_await100");
